@@ -237,6 +237,7 @@ class Oracle:
         self.red = reduction
         self.pre_raw, self.pre_arr, self.post = [], [], []
         self.zpost = self.zpre = None
+        self.near_tie = False
         self.t = -1
 
     # ---- spike-time primitives (explicit sums over recorded spike times) ------------------------------------------------
@@ -327,12 +328,14 @@ class Oracle:
             tpre = pre_view(self._elapsed)
             tpost = self._elapsed(self.post, tnow)
             td = tpre - tpost
+            self._note_tie(td)
             return self._kernel_parts(td, a, b, ta, tb)
 
         # delay-adjusted family: raw most-recent spike times, adjusted by the delay read THIS step
         tpre = self._elapsed(self.pre_raw, tnow)
         tpost = self._elapsed(self.post, tnow)
         td = tpre - tpost - dexp
+        self._note_tie(td)
         if name in ("DelayAdjustedKernelSTDP", "DelayAdjustedKernelSTDPD"):
             return self._kernel_parts(td, a, b, ta, tb)
         with np.errstate(invalid="ignore"):
@@ -347,6 +350,12 @@ class Oracle:
         pos = (first if first_pos else z) + (second if second_pos else z)
         neg = (z if first_pos else first) + (z if second_pos else second)
         return pos, neg
+
+    def _note_tie(self, td):
+        """the rules are discontinuous at t_delta == 0: with a step time that is not exactly representable the two sides of a
+        mathematically simultaneous pair are rounded independently, so such steps are outside what any oracle can decide"""
+        with np.errstate(invalid="ignore"):
+            self.near_tie = bool(np.any(np.abs(td) < 1e-7)) and not float(self.dt * 1024).is_integer()
 
     def _kernel_parts(self, td, a, b, ta, tb):
         with np.errstate(invalid="ignore"):
